@@ -9,7 +9,7 @@ import random
 
 from engine import tlc, core, tracecheck
 
-CLASS_OF = {"OK": "ok", "BAD_VERSION": "bad", "TYPE_UNKNOWN": "bad", "TYPE_WRONG_DIR": "tolerable",
+CLASS_OF = {"OK": "ok", "HANDLER_RAISES": "raises", "BAD_VERSION": "bad", "TYPE_UNKNOWN": "bad", "TYPE_WRONG_DIR": "tolerable",
             "LEN_LT_8": "nolen", "LEN_LT_NEEDED": "badlen", "LEN_GT_ACTUAL": "badlen",
             "INNER_LEN_BAD": "tolerable", "TRUNCATED": "partial"}
 
@@ -20,7 +20,8 @@ def drive(sc):
   from harness import rawbytes as rb
   side, kind, fault, param, pos, la, plan = sc
   Loop = L.ControllerLoop if side == "ctl" else L.SwitchLoop
-  c = L.corrupt(side, kind, 10 + pos, fault, param)
+  fx = L.RAISE_XID if fault == "HANDLER_RAISES" else 10 + pos
+  c = L.corrupt(side, kind, fx, fault, param)
   if c is None:
     return None
   # A's stream: ok messages around the faulty one; B: two ok messages
@@ -31,13 +32,15 @@ def drive(sc):
     if i == pos:
       msgs["A"].append(c[0])
       # a HELLO announcing another version is version negotiation, not a malformed message
-      cls["A"].append("tolerable" if (kind == "hello" and fault == "BAD_VERSION") else CLASS_OF[fault])
+      cls["A"].append("tolerable" if (kind == "hello" and fault == "BAD_VERSION") else
+                      "short" if c[2] == "short" else CLASS_OF[fault])
     else:
       msgs["A"].append(L.good(side, okk[i % 3], 10 + i))
       cls["A"].append("ok")
   msgs["B"] = [L.good(side, "echo", 101), L.good(side, "barrier", 102)]
   cls["B"] = ["ok", "ok"]
   xid2idx = {"A": {10 + i: i for i in range(1, la + 1)}, "B": {101: 1, 102: 2}}
+  xid2idx["A"][fx] = pos
   if plan == "batch":
     feeds = [("A", la), ("B", 1), ("B", 1)]
   elif plan == "single":
@@ -74,8 +77,12 @@ def drive(sc):
           idx = xid2idx[x].get(xid, 0)
           if idx and idx >= nxt[x] and idx <= fed[x]:
             orig = msgs[x][idx - 1]
-            if cls[x][idx - 1] == "ok" and t not in (rb.FLOW_MOD, rb.FLOW_REMOVED) and raw != orig:
-              idx = 0
+            if cls[x][idx - 1] in ("ok", "raises"):
+              # the delivered object must be the message that was sent: exact bytes for body-less / opaque-body
+              # kinds, type and length for kinds POX re-encodes in normalised form
+              exact = t in (rb.HELLO, rb.ECHO_REQUEST, rb.ECHO_REPLY, rb.BARRIER_REQUEST, rb.BARRIER_REPLY)
+              if (exact and raw != orig) or orig[1] != t or len(raw) != len(orig):
+                idx = 0
           else:
             idx = 0
           if idx == 0:
@@ -93,14 +100,15 @@ def drive(sc):
         if o["closed"][x] and isopen[x]:
           isopen[x] = False
           events.append({"e": "close", "c": x, "k": 0, "i": 0})
-        elif isopen[x] and o["residual"][x] == 0:
-          while nxt[x] <= fed[x]:      # consumed without delivery: skipped
-            if nerr > 0:
-              nerr -= 1
-              events.append({"e": "error", "c": x, "k": 0, "i": nxt[x]})
-            else:
-              events.append({"e": "skipq", "c": x, "k": 0, "i": nxt[x]})
+        elif isopen[x]:
+          while nxt[x] <= fed[x] and nerr > 0:     # error replies answer the next unresolved messages
+            nerr -= 1
+            events.append({"e": "error", "c": x, "k": 0, "i": nxt[x]})
             nxt[x] += 1
+          if o["residual"][x] == 0:
+            while nxt[x] <= fed[x]:      # consumed without delivery and without reply: skipped quietly
+              events.append({"e": "skipq", "c": x, "k": 0, "i": nxt[x]})
+              nxt[x] += 1
           for _ in range(nerr):
             events.append({"e": "garbage", "c": x, "k": 0, "i": 0})
       if not o["alive"]:
